@@ -316,7 +316,7 @@ deriving Repr, BEq, DecidableEq
 def blockchainInfo (s : State) : BlockchainInfo :=
   let chain := s.unstable.mainChain
   let tip := chain.getLast?.getD s.unstable.tree.root
-  let len : Int := (s.utxos.utxos.length : Int) + (chain.map (·.utxoDelta)).foldl (· + ·) 0
+  let len : Int := (s.utxos.utxos.length : Int) + (chain.map (·.utxoDeltaNow)).foldl (· + ·) 0
   ⟨s.mainChainHeight, tip.hash, tip.blk.time, tip.blk.diff, len.toNat⟩
 
 /-- `is_synced` (`thr` = `SYNCED_THRESHOLD`) -/
